@@ -69,10 +69,15 @@ void b64decode(const void * b64, size_t len, TabChar& data)
     return;
 
   const unsigned char *p = (const unsigned char*) b64;
+  /* the padding is optional */
+  while (len > 0 && p[len - 1] == '=')
+    --len;
+  /* a remainder of 2 or 3 characters encodes 1 or 2 bytes; a single one
+   * cannot encode a byte and it is ignored */
   size_t j = 0,
-      pad1 = len % 4 || p[len - 1] == '=',
-      pad2 = pad1 && (len % 4 > 2 || p[len - 2] != '=');
-  const size_t last = (len - pad1) / 4 << 2;
+      pad1 = len % 4 > 1,
+      pad2 = len % 4 > 2;
+  const size_t last = len - len % 4;
   size_t datalen = last / 4 * 3 + pad1 + pad2;
   data.assign(datalen, '\0');
 
